@@ -118,6 +118,25 @@ Fixpoint b64_encode (url : bool) (s : list byte) : list byte :=
   | [] => []
   end.
 
+(* Encoding.WithPadding(NoPadding).EncodeToString *)
+Fixpoint b64_encode_raw (url : bool) (s : list byte) : list byte :=
+  match s with
+  | a :: b :: c :: r =>
+    let v := b2n a * 65536 + b2n b * 256 + b2n c in
+    b64_char url (v / 262144) :: b64_char url ((v / 4096) mod 64) :: b64_char url ((v / 64) mod 64)
+      :: b64_char url (v mod 64) :: b64_encode_raw url r
+  | [a; b] =>
+    let v := b2n a * 65536 + b2n b * 256 in
+    [b64_char url (v / 262144); b64_char url ((v / 4096) mod 64); b64_char url ((v / 64) mod 64)]
+  | [a] =>
+    let v := b2n a * 65536 in
+    [b64_char url (v / 262144); b64_char url ((v / 4096) mod 64)]
+  | [] => []
+  end.
+(* the four encodings protojson accepts *)
+Definition b64_encode_variant (url pad : bool) (s : list byte) : list byte :=
+  if pad then b64_encode url s else b64_encode_raw url s.
+
 (* decodeQuantum: up to four sextets, skipping CR/LF; non-strict (trailing bits ignored) *)
 Inductive qres := QDone | QErr | QOk (vals : list N) (rest : list byte).
 Fixpoint b64_quantum (fuel : nat) (url pad : bool) (j : nat) (vals : list N) (src : list byte) : qres :=
